@@ -618,6 +618,12 @@ def pair_reduce(*values):
     return ('reduced', *values)
 
 
+def least_label(true, pred):
+    """A plain numeric metric whose per-fold value is known from the fold's held-out records alone (labels are 10 * id, so
+    a fold holding out record 0 scores exactly 0)."""
+    return min(true)
+
+
 def concat_rows(*parts):
     return [row for part in parts for row in part]
 
